@@ -259,8 +259,8 @@ func (c *checker) judge(ins []input, label string) {
 		Consts: map[string]string{"NChunks": strconv.Itoa(nch)}, Data: data, Timeout: 15 * time.Minute})
 	defer t.Cleanup()
 	rep.AddTLC(t)
-	if t.Distinct != int64(2*nch+1) {
-		mbt.Infra("FloatLitTrace judged %d chunks of %d (%s)\n%s", (t.Distinct-1)/2, nch, label, tail(t.Output, 2000))
+	if t.Distinct != int64(3*nch+1) {
+		mbt.Infra("FloatLitTrace judged %d chunks of %d (%s)\n%s", (t.Distinct-1)/3, nch, label, tail(t.Output, 2000))
 	}
 	for _, v := range t.Violated {
 		if v != "AllPreserved" {
@@ -277,8 +277,13 @@ func (c *checker) judge(ins []input, label string) {
 		}
 	}
 	nbad := 0
+	badSeen := map[int]bool{} // TLC may evaluate (and print) a row more than once
 	for _, m := range reBad.FindAllStringSubmatch(t.Output, -1) {
 		id, _ := strconv.Atoi(m[1])
+		if badSeen[id] {
+			continue
+		}
+		badSeen[id] = true
 		cs := rowCase[id-1]
 		nbad++
 		c.changed[cs.in.q.kind]++
